@@ -533,9 +533,9 @@ class Inliner:
 
     def _hoist_nested(self, s: ast.stmt, cls, caller_q) -> Optional[List[ast.stmt]]:
         """stmt(..., helper(args), ...)  ->  _sv_argN = <inlined helper>; stmt(..., _sv_argN, ...)"""
-        if not isinstance(s, (ast.Expr, ast.Assign, ast.AugAssign, ast.Return, ast.AnnAssign)):
+        if not isinstance(s, (ast.Expr, ast.Assign, ast.AugAssign, ast.Return, ast.AnnAssign, ast.Raise)):
             return None
-        top = s.value if not isinstance(s, ast.Expr) else s.value
+        top = s.exc if isinstance(s, ast.Raise) else s.value
         if top is None:
             return None
         found = []
